@@ -16,6 +16,7 @@ package sched
 import (
 	"context"
 	"fmt"
+	"os"
 	"runtime"
 	"strings"
 	"sync"
@@ -375,7 +376,13 @@ func (c *Controller) options() []Choice {
 		case stParked:
 			out = append(out, Choice{a.id, "go", a.at})
 			if c.AllowStore && a.at == "commit.store" {
-				out = append(out, Choice{a.id, "storeFail", a.at}, Choice{a.id, "storePanic", a.at})
+				out = append(out, Choice{a.id, "storeFail", a.at})
+				// an injected store panic can end in a Go *fatal error* (not recoverable, kills the harness) when the code under
+				// test has lost its lock discipline; ./check retries a crashed stream with VERIF_NO_FATAL_FAULTS=1 so that the
+				// remaining scenarios can still produce a failing input
+				if os.Getenv("VERIF_NO_FATAL_FAULTS") == "" {
+					out = append(out, Choice{a.id, "storePanic", a.at})
+				}
 			}
 		case stRunning:
 			if c.AllowCancel && a.blocked && (a.site == "token" || strings.HasPrefix(a.site, "stream.next:select")) && !a.ctxDead && a.cancel != nil {
